@@ -1,7 +1,9 @@
 package main
 
 import (
+	"encoding/json"
 	"fmt"
+	"math/big"
 	"os"
 	"path/filepath"
 	"sort"
@@ -23,6 +25,9 @@ type TreeEntry struct {
 	Hole     int
 	OpenErr  bool
 	DirSize  int
+	MtSec    int64 // with HasMtSec: a time stamp outside the range of int64 nanoseconds (before 1677 / after 2262), as seconds + MtNsec
+	MtNsec   int64
+	HasMtSec bool
 	ASize    int // announced size of a regular file when HasASize (in-memory sources): the FS reports it, the readers deliver Data
 	HasASize bool
 	Link     string // symlink target, or hard-link source path (relative to the tree root)
@@ -49,6 +54,14 @@ func treeFromJSON(xs []interface{}) []TreeEntry {
 		e.OpenErr = m.boolean("openerr")
 		if e.Type == "dir" {
 			e.DirSize = m.num("size")
+		}
+		if n, ok := m["mt"].(json.Number); ok {
+			if _, err := n.Int64(); err != nil {
+				if b, ok := new(big.Int).SetString(n.String(), 10); ok {
+					sec, nsec := new(big.Int).DivMod(b, big.NewInt(1000000000), new(big.Int))
+					e.MtSec, e.MtNsec, e.HasMtSec, e.Mtime = sec.Int64(), nsec.Int64(), true, 0
+				}
+			}
 		}
 		if _, ok := m["asize"]; ok {
 			e.ASize, e.HasASize = m.num("asize"), true
@@ -150,6 +163,9 @@ func mktree(root string, ents []TreeEntry) error {
 		}
 		p := filepath.Join(root, e.Path)
 		ts := []unix.Timespec{unix.NsecToTimespec(e.Mtime), unix.NsecToTimespec(e.Mtime)}
+		if e.HasMtSec {
+			ts = []unix.Timespec{{Sec: e.MtSec, Nsec: e.MtNsec}, {Sec: e.MtSec, Nsec: e.MtNsec}}
+		}
 		if err := unix.UtimesNanoAt(unix.AT_FDCWD, p, ts, unix.AT_SYMLINK_NOFOLLOW); err != nil {
 			return err
 		}
@@ -165,6 +181,7 @@ type SnapEntry struct {
 	UID     uint32
 	GID     uint32
 	Mtime   int64
+	MtBig   string // exact decimal nanoseconds when the time stamp does not fit int64 nanoseconds
 	Link    string
 	Maj     int64
 	Min     int64
@@ -231,6 +248,11 @@ func snapshot(root string, withContent bool) ([]SnapEntry, error) {
 			}
 			e := SnapEntry{Path: r, Mode: goMode(st.Mode), Size: st.Size, UID: st.Uid, GID: st.Gid,
 				Mtime: time.Unix(st.Mtim.Sec, st.Mtim.Nsec).UnixNano(), Ino: st.Ino, Nlink: uint64(st.Nlink)}
+			if st.Mtim.Sec > 9223372035 || st.Mtim.Sec < -9223372035 {
+				// outside the range of int64 nanoseconds: reported exactly, as a decimal number
+				b := new(big.Int).Mul(big.NewInt(st.Mtim.Sec), big.NewInt(1000000000))
+				e.MtBig = b.Add(b, big.NewInt(st.Mtim.Nsec)).String()
+			}
 			typ := st.Mode & syscall.S_IFMT
 			if typ == syscall.S_IFCHR || typ == syscall.S_IFBLK {
 				e.Maj = int64(unix.Major(uint64(st.Rdev)))
@@ -307,6 +329,9 @@ func listXattrs(p string) [][2]string {
 func snapToJSON(s SnapEntry) map[string]interface{} {
 	m := map[string]interface{}{"p": hx(s.Path), "mode": s.Mode, "size": s.Size, "uid": s.UID, "gid": s.GID, "mt": s.Mtime,
 		"ln": hx(s.Link), "dmaj": s.Maj, "dmin": s.Min, "ino": s.Ino, "nlink": s.Nlink}
+	if s.MtBig != "" {
+		m["mt"] = json.Number(s.MtBig)
+	}
 	if len(s.Xattr) > 0 {
 		xs := []interface{}{}
 		for _, kv := range s.Xattr {
